@@ -31,11 +31,17 @@ DESIGN_REF = "DESIGN.md section 6, C16"
 L_DATA, L_DEF, L_NAME, L_HIST = 262144, 1048576, 80, 25000
 
 
-def doc_of_len(n):
+def doc_of_len(n, fill="a"):
     """{"k": "aaa..."} whose json.dumps text has exactly n characters (n >= 9)."""
-    d = {"k": "a" * (n - 9)}
-    assert len(json.dumps(d)) == n
+    d = {"k": fill * (n - 9)}
+    assert len(text_of(d)) == n
     return d
+
+
+def text_of(value):
+    """THE JSON text of a value: characters written as themselves (escaping every non-ASCII character as \\uXXXX is a choice of the writer, not a
+    property of the value)."""
+    return json.dumps(value, ensure_ascii=False)
 
 
 def sizes(L, quick=True):
@@ -46,12 +52,12 @@ def expect_ok(n, L):
     return n <= L
 
 
-def api_input(ctx, w, n, sync):
+def api_input(ctx, w, n, sync, fill="a"):
     place = "api-input"
-    ctx.evaluation(); ctx.count("place:" + place)
-    name = ("sx" if sync else "ex") + str(n)
+    ctx.evaluation(); ctx.count("place:" + place); ctx.count("fill:" + ("ascii" if fill == "a" else "non-ascii"))
+    name = ("sx" if sync else "ex") + str(n) + ("" if fill == "a" else "w%d" % ord(fill))
     sm = w.sm_arn("express" if sync else "std")
-    payload = json.dumps(doc_of_len(n))
+    payload = text_of(doc_of_len(n, fill))
     if sync:
         t = w.api_task("StartSyncExecution", {"stateMachineArn": sm, "name": name, "input": payload})
         w.pump(20); w.step_hooks.append(lambda world, act: world.pump(4)); w.run(); w.pump(20)
@@ -61,7 +67,7 @@ def api_input(ctx, w, n, sync):
         code, body = w.api("StartExecution", {"stateMachineArn": sm, "name": name, "input": payload})
         w.run()
     ok = expect_ok(n, L_DATA)
-    case = dict(place=place, action="StartSyncExecution" if sync else "StartExecution", size=n)
+    case = dict(place=place, action="StartSyncExecution" if sync else "StartExecution", size=n, fill=fill)
     if abs(n - L_DATA) <= 2:
         ctx.nontrivial(case)
     if ok and code != 200:
@@ -70,12 +76,12 @@ def api_input(ctx, w, n, sync):
         ctx.violation("oversize-input-not-refused-with-InvalidExecutionInput", dict(case, code=code, body=str(body)[:200]), None)
 
 
-def state_output(ctx, kind, n, typ, end):
+def state_output(ctx, kind, n, typ, end, fill="a"):
     """A state of the given kind whose OUTPUT text has exactly n characters."""
     place = "state-output"
-    ctx.evaluation(); ctx.count("place:" + place)
+    ctx.evaluation(); ctx.count("place:" + place); ctx.count("fill:" + ("ascii" if fill == "a" else "non-ascii"))
     inner = n if kind in ("Pass", "Task") else n - 2          # fan-out results are arrays of one element: [ ... ]
-    d = doc_of_len(inner)
+    d = doc_of_len(inner, fill)
     if kind == "Pass":
         st = F.P()
     elif kind == "Task":
@@ -94,12 +100,13 @@ def state_output(ctx, kind, n, typ, end):
     if kind == "Map":
         # the Map's output replaces the input: [d]
         pass
-    case = dict(place=place, kind=kind, size=n, type=typ, end=end)
+    case = dict(place=place, kind=kind, size=n, type=typ, end=end, fill=fill)
     if abs(n - L_DATA) <= 2:
         ctx.nontrivial(case)
     with World(seed=ctx.seed) as w:
         sm = w.create_machine("m", asl, typ=typ)
-        w.add_worker("echo", worker_behaviour({"echo": ["echo"]}))
+        # (the worker writes its reply with the characters as themselves: an escaped spelling would be a longer text)
+        w.add_worker("echo", (lambda wk, req: RAW(text_of(req["payload"]).encode("utf-8"))) if fill != "a" else worker_behaviour({"echo": ["echo"]}))
         e = w.start_event(sm, "e", data)
         w.run()
         st_, out, err, t = w.outcome(e)
@@ -107,15 +114,15 @@ def state_output(ctx, kind, n, typ, end):
         if ok and st_ != "SUCCEEDED":
             ctx.violation("state-output-within-limit-failed", dict(case, status=st_, error=err), None)
         if not ok and not (st_ == "FAILED" and err == "States.DataLimitExceeded"):
-            ctx.violation("oversize-state-output-not-failed-with-DataLimitExceeded", dict(case, status=st_, error=err, output_len=len(json.dumps(out)) if out is not None else None),
+            ctx.violation("oversize-state-output-not-failed-with-DataLimitExceeded", dict(case, status=st_, error=err, output_len=len(text_of(out)) if out is not None else None),
                           "terminal-state-no-datalimit" if end else None)
 
 
-def task_reply(ctx, n):
+def task_reply(ctx, n, fill="a"):
     place = "task-reply"
-    ctx.evaluation(); ctx.count("place:" + place)
-    body = json.dumps(doc_of_len(n)).encode()
-    case = dict(place=place, size=n)
+    ctx.evaluation(); ctx.count("place:" + place); ctx.count("fill:" + ("ascii" if fill == "a" else "non-ascii"))
+    body = text_of(doc_of_len(n, fill)).encode("utf-8")
+    case = dict(place=place, size=n, fill=fill, bytes=len(body))
     if abs(n - L_DATA) <= 2:
         ctx.nontrivial(case)
     asl = {"StartAt": "A", "States": {"A": F.T("big", ResultPath="$.r", OutputPath="$.small", Next="Z"), "Z": {"Type": "Pass", "End": True}}}
@@ -132,10 +139,10 @@ def task_reply(ctx, n):
             ctx.violation("oversize-task-reply-not-failed-with-DataLimitExceeded", dict(case, status=st_, error=err), None)
 
 
-def callback_output(ctx, n):
+def callback_output(ctx, n, fill="a"):
     place = "callback-output"
-    ctx.evaluation(); ctx.count("place:" + place)
-    case = dict(place=place, size=n)
+    ctx.evaluation(); ctx.count("place:" + place); ctx.count("fill:" + ("ascii" if fill == "a" else "non-ascii"))
+    case = dict(place=place, size=n, fill=fill)
     if abs(n - L_DATA) <= 2:
         ctx.nontrivial(case)
     asl = {"StartAt": "A", "States": {"A": {"Type": "Task", "Resource": "arn:aws:states:local::rpcmessage:invoke.waitForTaskToken",
@@ -152,7 +159,7 @@ def callback_output(ctx, n):
         if not tokens:
             ctx.inconclusive("callback task never reached the worker")
             return
-        code, body = w.api("SendTaskSuccess", {"taskToken": tokens[0], "output": json.dumps(doc_of_len(n))})
+        code, body = w.api("SendTaskSuccess", {"taskToken": tokens[0], "output": text_of(doc_of_len(n, fill))})
         w.run()
         st_, out, err, t = w.outcome(e)
         ok = expect_ok(n, L_DATA)
@@ -293,6 +300,25 @@ def run(ctx):
         i += 1
         if ctx.mine(i):
             callback_output(ctx, n)
+    # the same places with texts made of non-ASCII characters: the limit counts the characters of the text, not the bytes of an encoding of it nor
+    # the characters of an escaped spelling
+    for fill in ("\u00e9", "\u20ac"):
+        for n in (60000, 140000, L_DATA - 1, L_DATA, L_DATA + 1):
+            for kind, end in (("Pass", False), ("Task", False), ("Map", False)):
+                i += 1
+                if ctx.mine(i):
+                    state_output(ctx, kind, n, "STANDARD", end, fill)
+            i += 1
+            if ctx.mine(i):
+                task_reply(ctx, n, fill)
+            i += 1
+            if ctx.mine(i):
+                callback_output(ctx, n, fill)
+            i += 1
+            if ctx.mine(i):
+                with World(seed=ctx.seed) as wq:
+                    wq.create_machine("std", {"StartAt": "A", "States": {"A": {"Type": "Pass", "Result": 1, "End": True}}})
+                    api_input(ctx, wq, n, False, fill)
     for variant in ("loop", "retry"):
         i += 1
         if ctx.mine(i):
@@ -310,10 +336,10 @@ def replay(ctx, doc):
     print(json.dumps(doc["witness"], indent=1)[:2000])
     w = doc["witness"]
     if w.get("place") == "state-output":
-        state_output(ctx, w["kind"], w["size"], w["type"], w["end"])
+        state_output(ctx, w["kind"], w["size"], w["type"], w["end"], w.get("fill", "a"))
     elif w.get("place") == "task-reply":
-        task_reply(ctx, w["size"])
+        task_reply(ctx, w["size"], w.get("fill", "a"))
     elif w.get("place") == "callback-output":
-        callback_output(ctx, w["size"])
+        callback_output(ctx, w["size"], w.get("fill", "a"))
     elif w.get("place") == "history":
         history_bound(ctx, w["variant"])
